@@ -3,6 +3,7 @@ import SuxModel.Atomic.LemmasLin
 import SuxModel.Atomic.LemmasEF
 import SuxModel.Atomic.LemmasProgress
 import SuxModel.Atomic.LemmasSafe
+import SuxModel.Atomic.LemmasTerm
 import SuxModel.BitVec.Model
 /-!
 # C13 — concurrent writers to distinct elements never interfere, in any interleaving
@@ -324,5 +325,33 @@ example :
       [(1, 1), (1, 2), (0, 1)]) ∧ (run 8 (Cfg.init exWords exProgs) exSched).totSucc = 4 ∧
     staleGrants exSched 1 = 1 := by
   refine ⟨by decide +kernel, by decide +kernel, by decide +kernel⟩
+
+/-- **C13 T-B, termination of every fair schedule**: with well-formed calls, every schedule that
+grants each thread more micro-steps than `4·(its calls) + 2·(stale choices granted to it) +
+2·(calls of all threads)` ends with all threads finished (`AllDone`, the hypothesis of the
+final-memory theorems) — whatever the interleaving.  Reason: every micro-step of an unfinished
+thread is either progress (at most 4 per call) or a failed compare-exchange, and failures are paid
+for by stale choices or by successful RMWs of other threads (at most 2 per call). -/
+theorem fair_schedule_terminates (W : Nat) (hW : 0 < W) (ws0 : Array Nat) (hok : WordsOK W ws0)
+    (progs : List (List Op)) (hwf : ProgsWF W ws0.size progs) (sched : List (Nat × Nat))
+    (hfair : ∀ t p, progs[t]? = some p →
+      4 * p.length + 2 * staleGrants sched t + 2 * (progs.map List.length).sum < grants sched t) :
+    (run W (Cfg.init ws0 progs) sched).AllDone :=
+  term_final W hW ws0 hok progs hwf sched hfair
+
+/-- non-vacuity: 11 sequentially consistent round-robin rounds over the three writers of the
+first example -/
+example : (run 8 (Cfg.init exWords exProgs)
+    ((List.range 11).flatMap (fun _ => [(0, 0), (1, 0), (2, 0)]))).AllDone := by
+  apply fair_schedule_terminates 8 (by decide) exWords exOK exProgs exWF
+  intro t p hp
+  have : t < 3 := by
+    rcases Nat.lt_or_ge t 3 with h | h
+    · exact h
+    · rw [List.getElem?_eq_none (by simpa [exProgs] using h)] at hp; cases hp
+  match t, this with
+  | 0, _ => cases hp; decide +kernel
+  | 1, _ => cases hp; decide +kernel
+  | 2, _ => cases hp; decide +kernel
 
 end Sux.Atomic
